@@ -544,7 +544,13 @@ theorem runN_graph (ho : StrictOrder lt) (hr : Ranked env lt) : ∀ d, EvalG env
         split
         · exact hroll s1.newExc ⟨rfl, rfl, rfl, rfl, rfl, rfl⟩
         · -- store and pop
-          have hf := popEdge_fields (env := env) ({ s1 with data := insert s1.data n v } : St).dropFrame n
+          have hf0 := popEdge_fields (env := env) ({ s1 with data := insert s1.data n v } : St).dropFrame n
+          have hds := drainSame env ((({ s1 with data := insert s1.data n v } : St).dropFrame).popEdge env n) n
+          have hf : (({ s1 with data := insert s1.data n v } : St).pop env n).data = insert s1.data n v ∧
+              (({ s1 with data := insert s1.data n v } : St).pop env n).inputs = s1.inputs ∧
+              (({ s1 with data := insert s1.data n v } : St).pop env n).stack = s1.stack.dropLast ∧
+              (({ s1 with data := insert s1.data n v } : St).pop env n).idx = s1.idx.dropLast :=
+            ⟨hds.data.trans hf0.1, hds.inputs.trans hf0.2.1, hds.stack.trans hf0.2.2.1, hds.idx.trans hf0.2.2.2⟩
           have het : (({ s1 with data := insert s1.data n v } : St).dropFrame).edgeTarget =
               ({ s with gn := s1.gn } : St).edgeTarget := by
             simp [St.edgeTarget, St.dropFrame, hdropS, hdropI]
@@ -555,12 +561,18 @@ theorem runN_graph (ho : StrictOrder lt) (hr : Ranked env lt) : ∀ d, EvalG env
             (hf.2.2.1.trans hdropS)
             ({ s with gn := s1.gn } : St).edgeTarget hT ?_ ?_, ?_, ?_, ?_⟩
           · intro x
-            simp only [St.pop, St.drainRefs, St.popEdge, het]
+            show x ∈ (({ s1 with data := insert s1.data n v } : St).pop env n).gn ↔ _
+            unfold St.pop
+            rw [hds.gn]
+            simp only [St.popEdge, het]
             cases ({ s with gn := s1.gn } : St).edgeTarget with
             | none => simp [hc, mem_addNode_gn, St.dropFrame]
             | some t => simp [hc, mem_addEdge_gn, St.dropFrame]
           · intro e
-            simp only [St.pop, St.drainRefs, St.popEdge, het]
+            show e ∈ (({ s1 with data := insert s1.data n v } : St).pop env n).ge ↔ _
+            unfold St.pop
+            rw [hds.ge]
+            simp only [St.popEdge, het]
             cases ({ s with gn := s1.gn } : St).edgeTarget with
             | none => simp [hc, addNode_ge, St.dropFrame]
             | some t => simp [hc, mem_addEdge_ge, St.dropFrame]
@@ -578,7 +590,11 @@ theorem runN_graph (ho : StrictOrder lt) (hr : Ranked env lt) : ∀ d, EvalG env
             · exact hm
       · have hc' : env.cached n.1 = false := by simpa using hc
         simp only [hc', Bool.false_eq_true, if_false]
-        have hf := popEdge_fields (env := env) s1.dropFrame n
+        have hf0 := popEdge_fields (env := env) s1.dropFrame n
+        have hds := drainSame env (s1.dropFrame.popEdge env n) n
+        have hf : (s1.pop env n).data = s1.data ∧ (s1.pop env n).inputs = s1.inputs ∧
+            (s1.pop env n).stack = s1.stack.dropLast ∧ (s1.pop env n).idx = s1.idx.dropLast :=
+          ⟨hds.data.trans hf0.1, hds.inputs.trans hf0.2.1, hds.stack.trans hf0.2.2.1, hds.idx.trans hf0.2.2.2⟩
         have het : (s1.dropFrame).edgeTarget = ({ s with gn := s1.gn } : St).edgeTarget := by
           simp [St.edgeTarget, St.dropFrame, hdropS, hdropI]
         refine ⟨GI.finishUncached g1 s.stack n hs1 (s' := s1.pop env n)
@@ -588,12 +604,18 @@ theorem runN_graph (ho : StrictOrder lt) (hr : Ranked env lt) : ∀ d, EvalG env
           ({ s with gn := s1.gn } : St).edgeTarget hT ?_ ?_ ?_, ?_, ?_,
           hext0.trans (Ext.of_data (a := s1) (b := s1.pop env n) hf.1)⟩
         · intro x
-          simp only [St.pop, St.drainRefs, St.popEdge, het]
+          show x ∈ (s1.pop env n).gn ↔ _
+          unfold St.pop
+          rw [hds.gn]
+          simp only [St.popEdge, het]
           cases ({ s with gn := s1.gn } : St).edgeTarget with
           | none => simp [hc', St.dropFrame]
           | some t => simp [hc', mem_addEdge_gn, St.dropFrame]
         · intro e
-          simp only [St.pop, St.drainRefs, St.popEdge, het]
+          show e ∈ (s1.pop env n).ge ↔ _
+          unfold St.pop
+          rw [hds.ge]
+          simp only [St.popEdge, het]
           cases ({ s with gn := s1.gn } : St).edgeTarget with
           | none => simp [hc', St.dropFrame]
           | some t => simp [hc', mem_addEdge_ge, St.dropFrame]
